@@ -94,7 +94,7 @@ func mkProvKey(k []byte) string
 func newProviderSet() *providerSet
   props C07
   modifies nothing
-  ensures fresh(result) && psWF(result) && len(result.providers) == 0
+  ensures fresh(result) && fresh(result.set) && psWF(result) && len(result.providers) == 0
 
 func (ps *providerSet) setVal(p peer.ID, t time.Time)
   props C07
@@ -155,7 +155,7 @@ func loadProviderSet(ctx context.Context, dstore ds.Datastore, provideValidity t
   modifies nothing
   ensures imp(result1 == nil, result0 != nil && fresh(result0) && psWF(result0))
   ensures imp(result1 != nil, result0 == nil)
-  loop 0 invariant out != nil && fresh(out) && psWF(out)
+  loop 0 invariant out != nil && fresh(out) && fresh(out.set) && psWF(out)
   ghost at before call(Query): assert($arg1.Prefix == mkProvKey(k))
   ghost at call(readTimeValue): $err = $ret1; $t = $ret0
   ghost at call(Sub): $age = $ret0
